@@ -624,7 +624,8 @@ class Family:
         R.tf = tf
         out = []
         root = tempfile.mkdtemp(prefix="vf_reent_")
-        orders = [[3, 1, 2, 4], [1, 2, 3, 4], [4, 3, 2, 1], [2, 2, 1, 5, 0], [5, 6, 1, 7, 8, 2]]
+        orders = [[3, 1, 2, 4], [1, 2, 3, 4], [4, 3, 2, 1], [2, 2, 1, 5, 0], [5, 6, 1, 7, 8, 2],
+                  [-95, 3, 4], [-95, -96, 2], [3, -95, 4]]        # also points older than what is stored already
         try:
             n = 0
             for st in ("mem", "csv"):
